@@ -310,7 +310,7 @@ def compileNodeF : Nat → CEnv → Node → CM (List Frag)
     let tattrs ← attrs.mapM fun a => do
       match ← compileExpr env a.val with
       | some t => pure [TExpr.lit (.str a.name), t]
-      | none => .error (.domain "null attribute on a mixin call")
+      | none => pure [TExpr.lit (.str a.name), nullCall]     -- the literal null: `"name" null`
     let argArr := TExpr.fcall "__op__array" targs
     let attrMap := TExpr.fcall "__op__map_params" tattrs.flatten
     -- the block (if its rendering is non-empty) is defined as its own template; the counter is threaded by position
